@@ -75,6 +75,10 @@ def check_shuffled(inp):
 
 
 def sweep_shuffled(tier, seed):
+  # cohort size not dividing the number of clients: rounds straddle the end of a pass of the repeating stream
+  for sd in (seed, seed + 1):
+    for start in (1, 2, 4, 5):
+      yield dict(n=5, cohort=3, start=start, k=3, seed=sd)
   for n in (1, 3, 6):
     for cohort in (1, 2, n):
       for start in (0, 1, 3):
